@@ -60,6 +60,24 @@ Definition firm_over_q (lower : bool) (a : Q) (d : disc) (f o t : Q) : Q :=
 Definition firm_under_q (lower : bool) (a : Q) (d : disc) (f o t : Q) : Q :=
   if firm_miss lower f o t then a * fscale d (o - t) else 0.
 
+(* ---- the same specification on EXTENDED values: +inf / -inf are valid forecasts, observations and thresholds
+        (they compare like any other value); the distance from the observation to the threshold is taken in the
+        extended reals: +-inf when exactly one of them is infinite or they are infinite of opposite signs, and 0 when
+        they are EQUAL (also when both are the same infinity: the observation then sits on the threshold).
+        Proved equal to the regenerated kernel in coq/proofs/C12_inf.v (firm_single_x_ok), and equal to the
+        rational specification above on finite values (firm_spec_x_fin). ---- *)
+Definition xfa (lower : bool) (f o t : xv) : bool :=
+  if lower then xle o t && xlt t f else xlt o t && xle t f.
+Definition xmiss (lower : bool) (f o t : xv) : bool :=
+  if lower then xle f t && xlt t o else xlt f t && xle t o.
+Definition xdist (t o : xv) : xv :=      (* t - o *)
+  match t, o with XInf a, XInf b => if Bool.eqb a b then X0 else xsub t o | _, _ => xsub t o end.
+Definition xfscale (d : disc) (x : xv) : xv := match d with DNo => X1 | DFin d => xmin x (XFin d) | DInf => x end.
+Definition firm_over_x (lower : bool) (a : Q) (d : disc) (f o t : xv) : xv :=
+  if xfa lower f o t then xmul (XFin (1 - a)) (xfscale d (xdist t o)) else X0.
+Definition firm_under_x (lower : bool) (a : Q) (d : disc) (f o t : xv) : xv :=
+  if xmiss lower f o t then xmul (XFin a) (xfscale d (xdist o t)) else X0.
+
 (* ---- Murphy elementary scores with the NaN matching / merge of murphy_score (hand model):
         broadcast_and_match_nan, then over.combine_first(under).fillna(0).where(~isnan(fcst1)) ---- *)
 Definition murphy_point (kern : xv -> xv -> xv -> xv * xv) (f o t : xv) : xv * xv * xv :=
@@ -227,11 +245,15 @@ Definition d_zs := d_list d_z.
 Definition e_mat {A} (f : A -> raw) (p : list Q * list (list A)) : raw :=
   RL [RL (map e_q (fst p)); RL (map (fun r => RL (map f r)) (snd p))].
 Definition firm_spec_x (lower : bool) (a : xv) (d : xv) (f o t : xv) : list xv :=
+  let dd := match d with XFin q => if Qeq_bool q 0 then DNo else DFin q | XInf true => DInf | _ => DNo end in
   match a, f, o, t with
   | XFin a, XFin f, XFin o, XFin t =>
-      let dd := match d with XFin q => if Qeq_bool q 0 then DNo else DFin q | XInf true => DInf | _ => DNo end in
       let ov := firm_over_q lower a dd f o t in let un := firm_under_q lower a dd f o t in
       [XFin (ov + un); XFin ov; XFin un]
+  | XFin _, XNaN, _, _ | XFin _, _, XNaN, _ | XFin _, _, _, XNaN => [XNaN; XNaN; XNaN]
+  | XFin a, _, _, _ =>      (* an infinite forecast, observation or threshold: the specification on extended values *)
+      let ov := firm_over_x lower a dd f o t in let un := firm_under_x lower a dd f o t in
+      [xadd ov un; ov; un]
   | _, _, _, _ => [XNaN; XNaN; XNaN] end.
 Definition e_triple (r : xv * xv * xv) : raw := RL [e_xv (fst (fst r)); e_xv (snd (fst r)); e_xv (snd r)].
 Definition d_row (r : raw) : option (xv * xv * list (xv * xv)) :=
